@@ -1,4 +1,4 @@
-SPECIFICATION Spec
+SPECIFICATION CovSpecR
 CONSTANTS
   QBits = 6
   WrapBits = 20
@@ -10,23 +10,16 @@ CONSTANTS
   PriceOf <- MCPriceOf
   FeeRate = 60000
   ProtoRate = 2500
-  PosIds = {1, 2}
-  Users = {"lp1", "lp2"}
+  PosIds = {1}
+  Users = {"lp1"}
   Traders = {"t1"}
   Ranges <- MCRanges
   LiqUnits = {64, 640}
-  Amounts = {3, 40, 100}
+  Amounts = {100}
   StartGrowth <- MCStartGrowth
   Limits <- MCNoLimits
   Thresholds <- MCVacuous
   MaxOps = 4
 CHECK_DEADLOCK FALSE
-VIEW view
-INVARIANT TypeOK
-INVARIANT LiqSum
-INVARIANT TickSums
-INVARIANT Solvent
-PROPERTY SwapBoundsProp
-PROPERTY StepsOKProp
-PROPERTY SplitExactProp
-PROPERTY OwnerSignedProp
+INVARIANT TallyR
+POSTCONDITION CovROK
